@@ -41,6 +41,9 @@ case "$ID" in
       W="$W,$B/c15_$v"
     done
     C15_WORKERS="$W" exec "$B/rel/release/mc" C15 "$@" ;;
+  C20)
+    build pat cargo +nightly build --release --offline --features pattern
+    exec "$B/pat/release/mc" C20 "$@" ;;
   C14)
     build u16dbg cargo build --profile dbg --offline --features utf16
     exec "$B/u16dbg/dbg/mc" C14 "$@" ;;
